@@ -113,7 +113,38 @@ def build_cases(tier):
     pc = []
     s = one_htlc(pc, tlv_amount=[1] * 9)
     base('amountless invoice with a 9-byte amount field', [InvoiceSpec(1, H, None)], s, pc, [(16, meta + tlv_record(33003, [1] * 9))])
+    # 4b. metadata that repeats the invoice record: the first occurrence is the one that counts, and it is unusable
+    pc = []
+    s = one_htlc(pc, meta_prefix=[(33001, list(b'lnbc1'))])
+    base('duplicate invoice record, the first one unusable', [inv], s, pc, [(16, tlv_record(33001, list(b'lnbc1')) + meta)])
+    # 5. a plain final-hop HTLC (no metadata) for a hash for which a trampoline payment is being collected: it is still
+    #    none of the plugin's business -- continue at once, and it must not fund the pending set
+    from ..scenario import HtlcSpec as _H
+    pc = []
+    h0 = _H(0, invoice=0, hash=H, amount=500000, forward='amount', total=1006000, cltv_expiry=3000, cltv_rel=1500)
+    h1 = _H(1, invoice=None, hash=H, amount=506000, forward='amount', total=506000, cltv_expiry=3001, cltv_rel=1500)
+    cfg = dict(htlcs=[h0, h1], invoices=[InvoiceSpec(1, H, 1000000)], store_init='free_absent', max_parts=1, pay_outcomes=('complete',),
+               policy=(1000, 5000, 1008), cltv_delta=34, height=100, deliver_in_order=True, timers=False)
+    cases.append(('plain htlc while a trampoline payment of the same hash is pending', cfg, pc, [PlainWhilePending(), Coverage(['response:Continue'])], {}))
     return cases
+
+class PlainWhilePending:
+    """HTLC 1 carries no trampoline metadata: `continue` on its first poll, and no outgoing payment (HTLC 0 alone does
+    not fund one)."""
+    def after_step(self, m, sc, label, new):
+        for ev in new:
+            if ev[0] == 'rpc_call' and ev[2] == 'pay':
+                raise Violation('plain-htlc-held', {'what': 'an outgoing payment was started: the plain htlc was counted'}, 'handler.passthrough', 'counted')
+    def on_response(self, m, sc, k, resp):
+        if k != 1:
+            return
+        t = [t for t in m.st.sched.tasks if m.st.roots['task_of'].get(t.tid) == k][-1]
+        if not (isinstance(resp, Adt) and resp.variant == 'Continue') or t.polls != 1:
+            raise Violation('plain-htlc-held', {'response': resp.variant if isinstance(resp, Adt) else repr(resp), 'polls': t.polls},
+                            'handler.passthrough', 'not-continue')
+    def on_quiescent(self, m, sc):
+        if 1 in m.st.roots['delivered'] and not any(k == 1 for (_e, k) in m.st.roots['responses']):
+            raise Violation('plain-htlc-held', {'what': 'never answered'}, 'handler.passthrough', 'held')
 
 class SymMetaScenario(scen_common.ScenarioWithPc):
     """Metadata = n arbitrary bytes (the real TLV code runs on them)."""
